@@ -663,6 +663,67 @@ def dirreaders(run, fx):
         run.held('PASSORDER', inst, '', '%d readers, all tabled: %s' % (len(readers), sorted(q.split('::')[-1] for q in readers)))
 
 
+def analyse_exec(run, fx):
+    """ATTRSEM, "a rule's actions see the slots as they were when the rule matched": the loader's per-rule analysis
+    (decoder::analyse_opcode) marks every context position whose slot an action overwrites as CHANGED, which is what makes the loader
+    put a TEMP_COPY in front so that later references to that position still read the old glyph.  The function is interpreted
+    (rules/ordint.py; set_changed / set_ref from their own CFGs) at context position 2 for every opcode that replaces the glyph of the
+    current slot -- PUT_GLYPH, PUT_GLYPH_8BIT_OBS, PUT_SUBS, PUT_SUBS_8BIT_OBS, and PUT_COPY with slot operands -2..2: afterwards the
+    position is marked changed, except for PUT_COPY 0 (a slot copied onto itself), and a marked rule is flagged as modifying."""
+    from . import ordint as O
+    fn = fx.one('graphite2::vm::Machine::Code::decoder::analyse_opcode')
+    PD = 'graphite2::vm::Machine::Code::decoder::'
+    PCd = 'graphite2::vm::Machine::Code::'
+    crec = fx.raw['records'].get('(anonymous namespace)::context')
+    frec = [v for k, v in fx.raw['records'].items() if k.startswith('(anonymous namespace)::context::')]
+    inst = 'analyse_opcode marks the slot a PUT_* action overwrites as changed (interpreted)'
+    ops = {}
+    for e_ in fx.raw['enums'].values():
+        for c_ in e_.get('consts', []):
+            if c_.get('n') in ('PUT_GLYPH', 'PUT_GLYPH_8BIT_OBS', 'PUT_SUBS', 'PUT_SUBS_8BIT_OBS', 'PUT_COPY'):
+                ops[c_['n']] = c_['v']
+    if crec is None or len(frec) != 1 or len(ops) != 5 or 'changed' not in [f['n'] for f in frec[0]['fields']]:
+        run.broken('ATTRSEM', inst, 'the context record of the rule analysis (flags.changed) or the PUT_* opcodes were not found', fn.where())
+        return
+    CQ, FQ = crec['q'] + '::', frec[0]['q'] + '::'
+    sc_ = fx.fns_named('graphite2::vm::Machine::Code::decoder::set_changed')
+    for f_ in sc_:
+        for _, e_ in f_.elements():
+            for x_ in f_.walk(e_):
+                if x_.get('k') == 'MemberExpr' and (x_.get('d') or '').endswith('::changed'):
+                    FQ = x_['d'][:-len('changed')]          # the spelling member expressions use for the unnamed struct
+    cases = 0
+    try:
+        for name, opc in sorted(ops.items()):
+            for a0 in ((-2, -1, 0, 1, 2) if name in ('PUT_COPY', 'PUT_SUBS', 'PUT_SUBS_8BIT_OBS') else (0,)):
+                ctxs = O.Vec([O.Rec({CQ + 'codeRef': 0, CQ + 'flags': O.Rec({FQ + f['n']: 0 for f in frec[0]['fields']})}) for _ in range(8)])
+                code = O.Rec({PCd + '_modify': False, PCd + '_delete': False, PCd + '_instr_count': 3})
+                dec = O.Rec({PD + '_code': code, PD + '_slotref': 2, PD + '_contexts': O.It(ctxs, 0), PD + '_max_ref': 0, PD + '_out_index': 0, PD + '_out_length': 4,
+                             PD + '_stack_depth': 0, PD + '_in_ctxt_item': False, PD + '_passtype': 0})
+                args = O.Vec([a0, 0, 0, 0])
+                it = O.Interp(fx)
+                it.MAX_STEPS = 2000
+                cases += 1
+                it.call(fn, dec, [opc, O.It(args, 0)])
+                ch = ctxs.items[2][CQ + 'flags'][FQ + 'changed']
+                want = not (name == 'PUT_COPY' and a0 == 0)
+                desc = '%s%s at context position 2' % (name, (' %d' % a0) if name in ('PUT_COPY', 'PUT_SUBS', 'PUT_SUBS_8BIT_OBS') else '')
+                if want and not ch:
+                    run.violated('ATTRSEM', inst, fn.where(), '%s: the action overwrites the slot but the analysis does not mark the position as changed: no TEMP_COPY is placed in front, and a later action of '
+                                 'the same rule that refers back to this position reads the NEW glyph and attributes instead of the ones the rule matched' % desc)
+                    return
+                if want and not code[PCd + '_modify']:
+                    run.violated('ATTRSEM', inst, fn.where(), '%s: the rule is not flagged as modifying the stream' % desc)
+                    return
+    except O.Violation as v:
+        run.violated('ATTRSEM', inst, fn.where(), '%s (%s)' % (v.what, v.loc))
+        return
+    except O.AnalysisBroken as ex:
+        run.broken('ATTRSEM', inst, str(ex), fn.where())
+        return
+    run.held('ATTRSEM', inst, fn.where(), '%d opcode / operand combinations' % cases)
+
+
 def run(run):
     vm = R.get_vm(run)
     fx = vm.fx
@@ -671,6 +732,7 @@ def run(run):
     attrsign(run, fx)
     setglyphfx(run, fx)
     freshmark(run, fx)
+    analyse_exec(run, fx)
     try:
         from . import ordint as O_
         cases_, bad_ = firstpassing_exec(run, fx)
